@@ -166,7 +166,7 @@ def run_case(c):
         R = np.array(T)[:2, :2]
         return {"n": len(P), "span": float(np.ptp(P, axis=0).max()), "mag": float(np.abs(P).max()),
                 "rigid": float(np.abs(R @ R.T - np.eye(2)).max()), "det": float(np.linalg.det(R)),
-                "last_row": np.array(T)[2].tolist(), "rect": np.array(rect).tolist(),
+                "last_row": np.array(T)[2].tolist(), "rect": np.array(rect).tolist(), "T2": np.array(T).tolist(),
                 "excess": float((np.abs(Q) - np.array(rect) / 2).max()),
                 "slack": (np.array(rect) / 2 - np.abs(Q).max(axis=0)).tolist(),
                 "center": ((Q.max(axis=0) + Q.min(axis=0)) / 2).tolist(),
@@ -287,8 +287,18 @@ def _certificate(P, c, r):
 
 
 def model_request(c, o):
-    if "err" in o or c["query"] == "obb2d":
+    if "err" in o:
         return None
+    if c["query"] == "obb2d":
+        # the planar problem embedded in z = 0: the verified 3D box checker (C16_obb_contains) applies as it is
+        P2 = cloud2d(c["cloud"], c["seed"])
+        T = np.array(o["T2"])
+        sgn = 1.0 if o["det"] > 0 else -1.0          # a mirrored planar frame is completed to a right-handed one
+        sc = max(o["span"], o["mag"] * 1e-6, 1e-300)
+        return {"p": "C16", "op": "obb", "points": [_qp([p[0], p[1], 0.0]) for p in P2],
+                "rows": [_qp([T[0, 0], T[0, 1], 0.0]), _qp([T[1, 0], T[1, 1], 0.0]), _qp([0.0, 0.0, sgn])],
+                "t": _qp([T[0, 2], T[1, 2], 0.0]), "extents": _qp([o["rect"][0], o["rect"][1], 0.0]),
+                "eps": _q(1e-6 * max(sc, 1e-9))}
     geom, P = geometry(c)
     q = c["query"]
     sc = max(o["span"], o["mag"] * 1e-6, 1e-300)
@@ -326,6 +336,12 @@ def model_oracle(c, o, m):
         d = {"query": q, "check": what, "cloud": c["cloud"]}
         d.update(kw)
         return d
+    if q == "obb2d":
+        if not m["rigid"]:
+            return bad("transform-not-rigid")
+        if not m["inside"]:
+            return bad("points-outside-the-reported-rectangle")
+        return None
     if q == "hull":
         if not m["ok"]:
             why = [k for k in ("indexed", "vertices_are_inputs", "all_below", "watertight", "winding", "volume_positive")
